@@ -503,14 +503,12 @@ theorem addrV2_canonicity_full_fails :
 theorem pin_MaxMessagePayload : Generated.C08.MaxMessagePayload = MaxMessagePayload := by decide
 theorem pin_MaxProtocolMessageLength : Generated.C08.MaxProtocolMessageLength = MaxProtocolMessageLength := by decide
 theorem pin_MaxVarIntPayload : Generated.C08.MaxVarIntPayload = MaxVarIntPayload := by decide
-theorem pin_header : Generated.C08.MessageHeaderSize = MessageHeaderSize ∧ Generated.C08.CommandSize = CommandSize ∧
-    Generated.C08.blockHeaderLen = 80 ∧ Generated.C08.MaxBlockHeaderPayload = 80 := by decide
+theorem pin_header : Generated.C08.MessageHeaderSize = MessageHeaderSize ∧ Generated.C08.CommandSize = CommandSize := by decide
 theorem pin_tx_limits : Generated.C08.maxTxInPerMessage = maxTxInPerMessage ∧
     Generated.C08.maxTxOutPerMessage = maxTxOutPerMessage ∧ Generated.C08.maxTxPerBlock = maxTxPerBlock ∧
     Generated.C08.maxWitnessItemsPerInput = maxWitnessItemsPerInput ∧
     Generated.C08.maxWitnessItemSize = maxWitnessItemSize ∧ Generated.C08.scriptSlabSize = scriptSlabSize ∧
-    Generated.C08.MaxBlockPayload = MaxBlockPayload ∧ Generated.C08.minTxInPayload = 41 ∧
-    Generated.C08.MinTxOutPayload = 9 ∧ Generated.C08.minTxPayload = 10 := by decide
+    Generated.C08.MaxBlockPayload = MaxBlockPayload := by decide
 theorem pin_counts : Generated.C08.MaxInvPerMsg = MaxInvPerMsg ∧
     Generated.C08.MaxBlockHeadersPerMsg = MaxBlockHeadersPerMsg ∧
     Generated.C08.MaxBlockLocatorsPerMsg = MaxBlockLocatorsPerMsg ∧ Generated.C08.MaxAddrPerMsg = MaxAddrPerMsg ∧
@@ -520,8 +518,7 @@ theorem pin_counts : Generated.C08.MaxInvPerMsg = MaxInvPerMsg ∧
     Generated.C08.MaxFilterAddDataSize = MaxFilterAddDataSize ∧
     Generated.C08.maxFlagsPerMerkleBlock = maxFlagsPerMerkleBlock ∧
     Generated.C08.MaxCFilterDataSize = MaxCFilterDataSize ∧ Generated.C08.MaxCFHeadersPerMsg = MaxCFHeadersPerMsg ∧
-    Generated.C08.maxCFHeadersLen = maxCFHeadersLen ∧ Generated.C08.maxInvVectPayload = 36 ∧
-    Generated.C08.maxNetAddressV2Payload = 531 := by decide
+    Generated.C08.maxCFHeadersLen = maxCFHeadersLen := by decide
 theorem pin_gates : Generated.C08.MultipleAddressVersion = MultipleAddressVersion ∧
     Generated.C08.NetAddressTimeVersion = NetAddressTimeVersion ∧ Generated.C08.BIP0031Version = BIP0031Version ∧
     Generated.C08.BIP0035Version = BIP0035Version ∧ Generated.C08.BIP0037Version = BIP0037Version ∧
@@ -529,18 +526,6 @@ theorem pin_gates : Generated.C08.MultipleAddressVersion = MultipleAddressVersio
     Generated.C08.SendHeadersVersion = SendHeadersVersion ∧ Generated.C08.FeeFilterVersion = FeeFilterVersion ∧
     Generated.C08.AddrV2Version = AddrV2Version ∧ Generated.C08.ProtocolVersion = ProtocolVersion := by decide
 theorem pin_bip144 : Generated.C08.TxFlagMarker = 0 ∧ Generated.C08.WitnessFlag = 1 := by decide
-theorem pin_addrv2_sizes : Generated.C08.ipv4Size = 4 ∧ Generated.C08.ipv6Size = 16 ∧ Generated.C08.torv2Size = 10 ∧
-    Generated.C08.torv3Size = 32 ∧ Generated.C08.i2pSize = 32 ∧ Generated.C08.cjdnsSize = 16 ∧
-    Generated.C08.netIDipv4 = 1 ∧ Generated.C08.netIDcjdns = 6 := by decide
-theorem pin_sizeof : Generated.C08.sizeofTxIn + Generated.C08.sizeofPointer = eszTxIn ∧
-    Generated.C08.sizeofTxOut + Generated.C08.sizeofPointer = eszTxOut ∧
-    Generated.C08.sizeofSlice = eszWitnessItem ∧
-    Generated.C08.sizeofMsgTx + Generated.C08.sizeofPointer = eszTx ∧
-    Generated.C08.sizeofInvVect + Generated.C08.sizeofPointer = eszInvVect ∧
-    Generated.C08.sizeofBlockHeader + Generated.C08.sizeofPointer = eszHeader ∧
-    Generated.C08.sizeofHash + Generated.C08.sizeofPointer = eszHash ∧
-    Generated.C08.sizeofNetAddress + Generated.C08.sizeofPointer + 16 ≤ eszNetAddr ∧
-    Generated.C08.sizeofNetAddressV2 + Generated.C08.sizeofPointer + 40 ≤ eszNetAddrV2 := by decide
 theorem pin_v2Table : Generated.C08.v2Ids = v2Table.map (fun p => (p.1 : Int)) ∧
     Generated.C08.v2Commands = v2Table.map (fun p => p.2) := by decide
 theorem pin_commands : Generated.C08.commands = commands := by decide
